@@ -27,7 +27,15 @@ pub struct MemberResult {
     pub built_examples: Vec<String>,
 }
 
-pub fn workspace_dir(tag: &str) -> PathBuf { scratch_root().join(format!("ws-{tag}")) }
+/// The scratch workspace lives at a fixed place per stage and tier (under the harness's own build output), so that
+/// cargo sees the same package ids on every run and overwrites its artifacts instead of accumulating new ones.
+pub fn workspace_dir(tag: &str) -> PathBuf { let _ = scratch_root(); PathBuf::from(concat!(env!("CARGO_MANIFEST_DIR"), "/target")).join(format!("ws-{tag}")) }
+
+fn dir_size(p: &Path) -> u64 {
+    let mut n = 0;
+    if let Ok(rd) = std::fs::read_dir(p) { for e in rd.flatten() { let q = e.path(); if q.is_dir() { n += dir_size(&q); } else if let Ok(m) = e.metadata() { n += m.len(); } } }
+    n
+}
 
 pub fn example_stems(tree: &Tree) -> Vec<String> {
     tree.keys().filter_map(|p| p.strip_prefix("examples/").and_then(|x| x.strip_suffix(".rs")).map(|x| x.to_string())).collect()
@@ -56,6 +64,9 @@ pub fn build(tag: &str, members: &[Member], build_examples: bool) -> Result<(Pat
     let ws = workspace_dir(tag);
     let _ = std::fs::remove_dir_all(&ws);
     std::fs::create_dir_all(&ws).map_err(|e| e.to_string())?;
+    // keep the cargo target directory bounded: example binaries of earlier runs pile up under other names
+    if dir_size(&target_dir(tag)) > 3_000_000_000 { let _ = std::fs::remove_dir_all(target_dir(tag)); }
+    let _ = std::fs::remove_dir_all(target_dir(tag).join("debug/examples"));
     for m in members {
         let d = ws.join(&m.pkg);
         crate::pipeline::write_tree(&d, &m.tree);
